@@ -78,8 +78,11 @@ func (hh *heads) Replace(ctx context.Context, old cid.Cid, new cid.Cid, height u
 // List returns the list of current heads plus the max height.
 // @todo Document Heads.List function
 func (hh *heads) List(ctx context.Context) ([]cid.Cid, uint64, error) {
+	// The prefix must end with a separator, otherwise the heads of another namespace whose
+	// last element starts with the same characters (e.g. field 20 for field 2) are listed as well.
+	prefix := append(hh.namespace.Bytes(), '/')
 	iter, err := hh.store.Iterator(ctx, corekv.IterOptions{
-		Prefix: hh.namespace.Bytes(),
+		Prefix: prefix,
 	})
 	if err != nil {
 		return nil, 0, err
